@@ -154,9 +154,16 @@ class DConc:
     def __init__(self, entries):
         self.entries = tuple(entries)     # ((pykey, Val), ...)
 
+    @staticmethod
+    def _keq(a, b):
+        """python-constant keys by value; symbolic keys (Val) only by syntactic identity of their term"""
+        if isinstance(a, Val) or isinstance(b, Val):
+            return isinstance(a, Val) and isinstance(b, Val) and hasattr(a, "t") and hasattr(b, "t") and a.t.eq(b.t)
+        return a == b and type(a) is type(b)
+
     def get(self, k):
         for kk, v in self.entries:
-            if kk == k and type(kk) is type(k):
+            if self._keq(kk, k):
                 return v
         return None
 
@@ -164,7 +171,7 @@ class DConc:
         out = []
         done = False
         for kk, vv in self.entries:
-            if kk == k and type(kk) is type(k):
+            if self._keq(kk, k):
                 out.append((kk, v))
                 done = True
             else:
@@ -174,7 +181,7 @@ class DConc:
         return DConc(out)
 
     def remove(self, k):
-        return DConc([(kk, vv) for kk, vv in self.entries if not (kk == k and type(kk) is type(k))])
+        return DConc([(kk, vv) for kk, vv in self.entries if not self._keq(kk, k)])
 
 
 class DMap:
